@@ -92,6 +92,19 @@ theorem forkMid_J {s : St} {ra n keep : Nat} {r : Rollapp} {kst : SInfo} (hc : C
           exact Or.inr ⟨st, hmem, h4⟩)
         omega
     · exact ⟨ra0, r0, i, st, h1.congr hseqs, by rw [forkMid_getRa_other hg hra]; exact h2, h3, h4, h5, h6, h7⟩
+  · intro id r' hg' st hst
+    by_cases hid : id = ra
+    · subst hid
+      rw [hsame] at hg'; injection hg' with hg'; subst hg'
+      have hst : st ∈ r.states.take (keep - 1) ++ [kst] := hst
+      rcases List.mem_append.1 hst with h1 | h1
+      · exact (h.creators id r hg st (List.mem_of_mem_take h1)).congr hseqs
+      · have : st = kst := by simpa using h1
+        subst this
+        rw [ps.kst_creator]
+        exact (h.creators id r hg stk (List.mem_of_getElem? ps.hst)).congr hseqs
+    · rw [forkMid_getRa_other hg hid] at hg'
+      exact (h.creators id r' hg' st hst).congr hseqs
 
 theorem hardFork_J {s s' : St} {ra lv : Nat} (hc : ChainAll s) (h : J s) (e : hardFork s ra lv = .ok s') : J s' := by
   obtain ⟨r, keep, kst, hg, _, _, _, hplan, hs⟩ := hardFork_ok_elim e
@@ -230,10 +243,22 @@ theorem finalizeOne_J {s s' : St} {fails : List (Nat × Nat)} {ra idx : Nat} (hc
                 show (r.states.set (idx - 1) _)[i]? = some st0
                 rw [List.getElem?_set_ne hi]; exact h3
             · exact ⟨ra0, r0, i, st0, h1.congr rfl, by rw [hoth ra0 hra]; exact h2, h3, h4, h5, h6, h7⟩
+          · intro id r' hg' x hx
+            by_cases hxid : id = r.id
+            · subst hxid
+              rw [hsame] at hg'; injection hg' with hg'; subst hg'
+              have hx : x ∈ r.states.set (idx - 1) { st with finalized := true, finalizedAt := s.h } := hx
+              rcases List.mem_or_eq_of_mem_set hx with h1 | h1
+              · rw [hid]; exact (h.creators ra r hg x h1).congr rfl
+              · subst h1
+                rw [hid]; exact (h.creators ra r hg st (List.mem_of_getElem? hst)).congr rfl
+            · rw [hoth id hxid] at hg'
+              exact (h.creators id r' hg' x hx).congr rfl
 
 -- ---------------------------------------------------------------- appending a state
 
-theorem appendState_J {s : St} {id : Nat} {r : Rollapp} {new : SInfo} (hg : getRa s id = some r) (h : J s) :
+theorem appendState_J {s : St} {id : Nat} {r : Rollapp} {new : SInfo} (hg : getRa s id = some r) (h : J s)
+    (hnew : SeqOf s new.creator id) :
     J (setRa s { r with states := r.states ++ [new] }) := by
   have hid := getRa_id hg
   have hsame := getRa_setRa_same (r := { r with states := r.states ++ [new] }) (r0 := r)
@@ -257,6 +282,18 @@ theorem appendState_J {s : St} {id : Nat} {r : Rollapp} {new : SInfo} (hg : getR
       show (r.states ++ [new])[i]? = some st0
       rw [List.getElem?_append_left (getElem?_lt h3)]; exact h3
     · exact ⟨ra0, r0, i, st0, h1.congr rfl, by rw [hoth ra0 hra]; exact h2, h3, h4, h5, h6, h7⟩
+  · intro id' r' hg' x hx
+    by_cases hxid : id' = r.id
+    · subst hxid
+      rw [hsame] at hg'; injection hg' with hg'; subst hg'
+      have hx : x ∈ r.states ++ [new] := hx
+      rcases List.mem_append.1 hx with h1 | h1
+      · rw [hid]; exact (h.creators id r hg x h1).congr rfl
+      · have : x = new := by simpa using h1
+        subst this
+        rw [hid]; exact hnew.congr rfl
+    · rw [hoth id' hxid] at hg'
+      exact (h.creators id' r' hg' x hx).congr rfl
 
 theorem mem_addSeqHeights (a : Addr) (bds : List BD) (sh : List (Addr × Nat)) (p : Addr × Nat)
     (h : p ∈ addSeqHeights sh a bds) : p ∈ sh ∨ ∃ b ∈ bds, p = (a, b.height) := by
